@@ -277,11 +277,12 @@ NP == Len(SubPool)
 Sides == { v \in [1..NP -> 0..MaxSide] : VSum(v) \in 1..MaxSide }
 Plain(a, b) == [reac |-> a, prod |-> b, ireac |-> Zeros(NP), iprod |-> Zeros(NP)]
 PlainRxns == { Plain(a, b) : a \in { v \in Sides : VSum(v) \in Orders }, b \in Sides } \ { Plain(a, a) : a \in Sides }
-(* spectator written on both sides in parentheses (balanced decoration), or on the reactant   *)
-(* side only (unbalances exactly the keys of the spectator)                                   *)
+(* a spectator written in parentheses: on both sides (balanced decoration), on the reactant   *)
+(* side only, or on the product side only (the last two unbalance exactly the keys of the     *)
+(* spectator, unless the plain reaction was unbalanced by just that much)                     *)
 Decorated == IF ~Inactive THEN {}
-             ELSE { [r EXCEPT !.ireac = Unit(NP, i, 1), !.iprod = Unit(NP, i, m)] :
-                        r \in PlainRxns, i \in 1..NP, m \in {0, 1} }
+             ELSE { [r EXCEPT !.ireac = Unit(NP, i, ab[1]), !.iprod = Unit(NP, i, ab[2])] :
+                        r \in PlainRxns, i \in 1..NP, ab \in {<<1, 0>>, <<0, 1>>, <<1, 1>>} }
 StoichPool == { r \in PlainRxns \cup Decorated : ~OnlyBalanced \/ Balanced(SubPool, r) }
 NViol(r) == Cardinality(ViolatedKeys(SubPool, r))
 WithK(r, k) == [reac |-> r.reac, prod |-> r.prod, ireac |-> r.ireac, iprod |-> r.iprod, k |-> k]
@@ -300,9 +301,11 @@ GenReaction ==
           /\ \A i \in 1..Len(rxns) : ~SameStoich(rxns[i], r)
           /\ AddReaction(WithK(r, k))
 
+(* the reverse step of a written reaction: sides exchanged, spectators in parentheses included *)
+Reversed(r) == [reac |-> r.prod, prod |-> r.reac, ireac |-> r.iprod, iprod |-> r.ireac]
 GenReverse ==
-    /\ GenKind = "multiset" /\ AllowReverse /\ Len(rxns) = 1 /\ rxns[1].ireac = Zeros(NP) /\ rxns[1].iprod = Zeros(NP)
-    /\ \E k \in KChoices(2) : AddReaction(WithK(Plain(rxns[1].prod, rxns[1].reac), k))
+    /\ GenKind = "multiset" /\ AllowReverse /\ Len(rxns) = 1 /\ NViol(rxns[1]) <= MaxViol
+    /\ \E k \in KChoices(2) : AddReaction(WithK(Reversed(rxns[1]), k))
 
 (* first-order networks: an edge i -> j turns one i into m molecules of j, where the          *)
 (* composition of i is m times the composition of j (m = 1: isomerisation).  Edges are added  *)
@@ -430,6 +433,11 @@ MinViolKey(r) == LET vs == ViolatedKeys(subs, r) IN IF vs = {} THEN -1 ELSE CHOO
 ViolSeq(r) == SetToSortSeq(ViolatedKeys(subs, r), <)
 UnbalancedIdx == { i \in 1..Len(rxns) : ~Balanced(subs, rxns[i]) }
 HasInactive == \E i \in 1..Len(rxns) : VSum(rxns[i].ireac) + VSum(rxns[i].iprod) > 0
+(* a substance that a reaction only produces in parentheses; a substance on both sides of a reaction *)
+HasInactProdOnly == \E i \in 1..Len(rxns) : \E j \in 1..NS :
+                        rxns[i].iprod[j] > 0 /\ rxns[i].reac[j] + rxns[i].prod[j] + rxns[i].ireac[j] = 0
+HasBothSides == \E i \in 1..Len(rxns) : \E j \in 1..NS : rxns[i].reac[j] > 0 /\ rxns[i].prod[j] > 0
+TouchesEmpty == \E i \in 1..Len(rxns) : \E j \in 1..NS : Touches(rxns[i], j) /\ subs[j].comp = <<>>
 OutDeg(i) == Cardinality({ j \in 1..Len(rxns) : SourceOf(rxns[j]) = i })
 HasEdge(i, j) == \E m \in 1..Len(rxns) : SourceOf(rxns[m]) = i /\ TargetOf(rxns[m]) = j
 KSpread == LET ks == { rxns[j].k : j \in 1..Len(rxns) }
@@ -444,6 +452,7 @@ Class ==
         \o "-k" \o ToString(MinViolKey(rxns[CHOOSE i \in UnbalancedIdx : \A j \in UnbalancedIdx : i <= j]))
         \o (IF Cardinality(AllViolatedKeys(subs, rxns)) = 1 THEN "-single" ELSE "-multi")
         \o (IF HasInactive THEN "-inact" ELSE "")
+        \o (IF TouchesEmpty THEN "-empty" ELSE "")
     ELSE IF GenKind = "network" THEN
         "net-n" \o ToString(Len(rxns))
         \o (IF \E i \in 1..NS : OutDeg(i) >= 2 THEN "-branch" ELSE "")
@@ -454,6 +463,9 @@ Class ==
         "acc-n" \o ToString(Len(rxns))
         \o (IF \E i \in 1..Len(rxns) : Order(rxns[i]) >= 2 THEN "-bi" ELSE "")
         \o (IF HasInactive THEN "-inact" ELSE "")
+        \o (IF HasInactProdOnly THEN "-iprod" ELSE "")
+        \o (IF HasBothSides THEN "-cat" ELSE "")
+        \o (IF TouchesEmpty THEN "-empty" ELSE "")
         \o (IF c0 # <<>> THEN "-state" ELSE "")
 
 (* the natural concentration scale of a state: the largest finite bound (1 if there is none) *)
